@@ -199,6 +199,14 @@ Theorem C19_timer_stop_final :
     /\ rt_threads (rt_exec rearm_before_dump t (repeat DumpDone (rt_dumping t))) = O.
 Proof. exact rt_stop_final. Qed.
 
+(* the timer exists for ANY non-zero -i value (`if options.output_interval:`; a negative one is clamped to
+   1 s) and the same test guards rt.stop(): nothing is left for -i -2 either *)
+Theorem C19_negative_interval_timer_stopped :
+  timed opts_negative = true
+  /\ timers (snd (main current opts_negative returns st0)) = timers st0
+  /\ timers (snd (main unrepaired opts_negative returns st0)) = timers st0 + 1.
+Proof. exact negative_interval_timer. Qed.
+
 (* ... and this depends on _run re-arming BEFORE it dumps: with the other order a stop() that
    falls into a dump is undone when the dump returns *)
 Theorem C19_timer_needs_rearm_before_dump :
